@@ -174,6 +174,17 @@ class Repo:
             ci = m.classes.get(cn)
             if ci is None:
                 raise KeyError(f"{relpath}::{qual}: class {cn} not found")
+            if "." in fn:
+                # a function nested in a method (a closure): Class.method.inner -- verified with its free variables as declared inputs
+                outer, inner = fn.split(".", 1)
+                on = self.lookup_method(ci, outer)
+                if on is None:
+                    raise KeyError(f"{relpath}::{qual}: method not found")
+                found = [n for n in ast.walk(on[0]) if isinstance(n, ast.FunctionDef) and n.name == inner and n is not on[0]]
+                if len(found) != 1:
+                    raise KeyError(f"{relpath}::{qual}: nested function not found (or ambiguous)")
+                self._record(relpath, qual, found[0], m if on[1] is ci else on[1].mod)
+                return found[0], ci
             node = self.lookup_method(ci, fn)
             if node is None:
                 raise KeyError(f"{relpath}::{qual}: method not found")
